@@ -8,6 +8,7 @@ import (
 	"fmt"
 	"io"
 	"os"
+	"path/filepath"
 	"regexp"
 	"strings"
 	"sync"
@@ -178,7 +179,8 @@ func runDecoCase(a args, idx int, r *h.Rand, format string) {
 	var outs []*output.TaskOutput
 	for i := 0; i < nt; i++ {
 		t := task.NewTask()
-		t.Name = fmt.Sprintf("task-%c", 'A'+i)
+		// task names are data as well (a name may contain a per cent sign, a space, a colon)
+		t.Name = fmt.Sprintf("task-%c", 'A'+i) + []string{"", "", " 100%", "%d", ":%s%v", " (50%) done"}[(idx+i)%6]
 		o, err := output.NewTaskOutput(t, format, sink, sink)
 		if err != nil {
 			panic(err)
@@ -476,6 +478,21 @@ func modeFmt1(a args) {
 		t.Condition = "exit 1"
 	case "before-fails":
 		t.Before = []string{"exit 2"}
+	case "long-ansi-lines":
+		// an external command writing lines longer than any internal buffer, with escape sequences inside
+		var sb strings.Builder
+		for l := 0; l < 3; l++ {
+			for k := 0; k < 60; k++ {
+				sb.WriteString(strings.Repeat(string(rune('a'+l)), 97))
+				if k%7 == 3 {
+					sb.WriteString("\x1b[3" + fmt.Sprint(k%8) + "m")
+				}
+			}
+			sb.WriteString("\x1b[0m\n")
+		}
+		f := filepath.Join(a.Work, "long-ansi.txt")
+		os.WriteFile(f, []byte(sb.String()), 0o644)
+		t.Commands = []string{"cat '" + f + "'", "printf 'three\\n'"}
 	case "both-streams":
 		// an external command writing many lines to stdout and stderr at the same time
 		t.Commands = []string{"sh -c 'i=0; while [ $i -lt 1500 ]; do echo out$i; echo err$i >&2; i=$((i+1)); done'", "printf 'three\\n'"}
